@@ -317,7 +317,9 @@ func buildRequests(liveAck, staleAck, foreignAck string) []c16req {
 		f.desc = append(f.desc, "empty")
 		for i, d := range durs {
 			d := d
-			f.vals = append(f.vals, func(s *pubsubpb.Subscription) { s.RetryPolicy = &pubsubpb.RetryPolicy{MinimumBackoff: d, MaximumBackoff: d} })
+			f.vals = append(f.vals, func(s *pubsubpb.Subscription) {
+				s.RetryPolicy = &pubsubpb.RetryPolicy{MinimumBackoff: d, MaximumBackoff: d}
+			})
 			f.desc = append(f.desc, durDesc[i])
 		}
 		facs = append(facs, f)
